@@ -392,7 +392,25 @@ func multi(rng *rand.Rand) string {
 		"SELECT 1 -- c\n; DELETE FROM trace", "SELECT 1;\nPRAGMA query_only=OFF;\nDELETE FROM trace", "WITH x AS (SELECT 1) SELECT * FROM x; VACUUM",
 		"SELECT ';' AS semi", "SELECT 1 -- ; just a comment", "SELECT 1; ; ;", ";SELECT 1", "SELECT 1;ATTACH 'm.db' AS m",
 	}
-	return m[rng.Intn(len(m))]
+	if rng.Intn(3) == 0 {
+		return m[rng.Intn(len(m))]
+	}
+	// Composed: a harmless head whose comments / quoted identifiers / literals contain quote characters, separators
+	// and comment openers (whatever a home-made tokenizer might mis-scan), then a separator, optionally switching
+	// query_only off, then a write, then a tail that re-balances stray quotes. The text may mention "limit 1" so
+	// that no LIMIT needs to be appended.
+	heads := []string{
+		"SELECT 1 /* don't add limit 1 */", "SELECT 1 -- it's fine limit 2\n", `SELECT 1 AS "it's"`, "SELECT 1 AS [it's]", "SELECT 1 AS `it's`",
+		"SELECT ';' AS a, '--' AS b", `SELECT "a;b" FROM (SELECT 1 AS "a;b")`, "SELECT 'x''y;' /* ' */", "SELECT 1 /* \" */ AS z", "SELECT 1 /*;*/ LIMIT 1",
+		"SELECT '/*' AS c", "SELECT 1 --'\n", "SELECT 1 /* '' ' */", "SELECT count(*) FROM trace WHERE What <> 'a;b''c' LIMIT 3",
+	}
+	mids := []string{"", "", " PRAGMA query_only = OFF;", " PRAGMA query_only=0;", " PRAGMA writable_schema = ON;"}
+	writes := []string{
+		" DELETE FROM trace", " UPDATE trace SET What = 'x'", " DROP TABLE trace", " INSERT INTO location VALUES (99, 'zz')", " CREATE TABLE pwn(x)",
+		" VACUUM INTO 'copy.db'", " ATTACH 'm.db' AS m", " ALTER TABLE trace RENAME TO t2", " REINDEX", " DELETE FROM trace WHERE ID IN (SELECT ID FROM trace LIMIT 1)",
+	}
+	tails := []string{"", " --'", " /* ' */", " --\"", " -- limit 5", ";", " ; --'"}
+	return heads[rng.Intn(len(heads))] + ";" + mids[rng.Intn(len(mids))] + writes[rng.Intn(len(writes))] + tails[rng.Intn(len(tails))]
 }
 
 func nulQuery(rng *rand.Rand) string {
